@@ -69,6 +69,10 @@ func zzGenDoc(L int, faults bool) *zzDoc {
 	d.eol = []string{"\n", "\r\n", "\n"}[fmtSel]
 	d.finalEOL = fmtSel != 2
 	rot := zz.Param("rot") // rotates the indentation style used by the k-th record
+	// tab=1: durations may use a tab between value and summary (klog accepts it; the
+	// specification asks for a space, so only the mutating-command harnesses enable it)
+	tabSep := zz.ParamOr("tab", 0) == 1
+	pendingCont := false // a fault that is only complete once the entry's summary lines are consumed
 	state := zzStStart
 	var cur *zzRec
 	nextDate := 0
@@ -89,7 +93,13 @@ func zzGenDoc(L int, faults bool) *zzDoc {
 	}
 	for i := 0; i < L; i++ {
 		if !d.accept {
-			// after the first fault the rest is irrelevant: pad with blank lines
+			// after the first fault the rest is irrelevant: pad with blank lines - except
+			// that a duplicate open range may still be followed by its summary lines
+			if pendingCont && zz.Choose(2) == 1 {
+				d.lines = append(d.lines, cur.indent+cur.indent+"more")
+				continue
+			}
+			pendingCont = false
 			d.lines = append(d.lines, "")
 			continue
 		}
@@ -190,15 +200,23 @@ func zzGenDoc(L int, faults bool) *zzDoc {
 			case oDur:
 				startEntry()
 				dg := zzDigits("d", 2)
-				variant := zz.Choose(3)
-				sign := []string{"", "-", "+"}[variant]
+				nv := 3
+				if tabSep {
+					nv = 4
+				}
+				variant := zz.Choose(nv)
+				sign := []string{"", "-", "+", "-"}[variant]
 				v := int(dg[0]-'0')*10 + int(dg[1]-'0')
 				if sign == "-" {
 					v = -v
 				}
-				s := optSummary(variant == 1)
+				s := optSummary(variant == 1 || variant == 3)
 				cur.entries = append(cur.entries, zzEntry{kind: zzKindDuration, a: v, summary: s, line: i})
-				d.lines = append(d.lines, entryLine(sign+dg+"m", s))
+				if variant == 3 {
+					d.lines = append(d.lines, cur.indent+sign+dg+"m\t"+s[0])
+				} else {
+					d.lines = append(d.lines, entryLine(sign+dg+"m", s))
+				}
 			case oRange:
 				startEntry()
 				m := zzDigits("rm", 1)
@@ -222,6 +240,7 @@ func zzGenDoc(L int, faults bool) *zzDoc {
 				d.lines = append(d.lines, entryLine("1"+h+":15 - "+q, s))
 				if openSeen {
 					fault(i, "second-open-range")
+					pendingCont = true
 				} else {
 					openSeen = true
 					cur.entries = append(cur.entries, zzEntry{kind: zzKindOpen, a: (10+int(h[0]-'0'))*60 + 15, summary: s, line: i})
